@@ -55,7 +55,8 @@ func init() {
 				{Name: "real", Mode: "real", Shards: 1, Timeout: 10 * time.Minute},
 			}
 		},
-		Run: run,
+		Run:    run,
+		Replay: replay,
 	})
 }
 
@@ -676,4 +677,19 @@ func runIdle(c *fw.Ctx) {
 	c.Obs("idle_expired_associations", int64(n))
 	sort.Ints(nil)
 	_ = json.Marshal
+}
+
+
+func replay(c *fw.Ctx, raw json.RawMessage) {
+	var w struct {
+		Scenario *Scenario `json:"scenario"`
+	}
+	if err := json.Unmarshal(raw, &w); err != nil || w.Scenario == nil {
+		fmt.Println("replay: only scripted scenarios can be replayed:", err)
+		return
+	}
+	hmods.Quiet(c.OutDir + "/caddyhome")
+	for k := 0; k < 5; k++ { // schedules are racy: a few repetitions
+		runScenario(c, w.Scenario)
+	}
 }
